@@ -267,14 +267,49 @@ def load_prop(prop_id):
     return _PROPS[prop_id]
 
 
+_SNAP = None
+
+
+def _class_state(mods):
+    out = {}
+    for mod in mods:
+        for obj in list(vars(mod).values()):
+            if isinstance(obj, type) and obj.__module__ == mod.__name__:
+                for k, v in list(vars(obj).items()):
+                    if k.startswith('__') or callable(v) or isinstance(v, (classmethod, staticmethod, property)):
+                        continue
+                    out[(obj, k)] = v
+    return out
+
+
+def snapshot_library_state():
+    """Remember the import-time value of every piece of process-global parser state.  Must be called
+    before the first parse in the process (run_check / replay_file do so; forked workers inherit it)."""
+    global _SNAP
+    if _SNAP is None:
+        import html
+        from mistletoe import block_token, span_token
+        _SNAP = (_class_state((block_token, span_token)), html._charref)
+
+
 def reset_library_state():
-    """Bring the library's process-global parser state back to import-time defaults."""
+    """Bring the library's process-global parser state back to import-time defaults, so that every
+    case starts from the same state and a failure reproduces from its saved input alone."""
+    import html
     from mistletoe import block_token, span_token, core_tokens, token
+    snapshot_library_state()
+    snap, charref = _SNAP
+    for (cls, k), v in snap.items():
+        if vars(cls).get(k, snap) is not v:
+            setattr(cls, k, v)
+    for (cls, k) in _class_state((block_token, span_token)):
+        if (cls, k) not in snap:
+            delattr(cls, k)
     block_token.reset_tokens()
     span_token.reset_tokens()
     core_tokens._code_matches = []
     token._root_node = None
-    block_token.Paragraph.parse_setext = True
+    html._charref = charref
 
 
 def _worker(task):
@@ -339,6 +374,7 @@ def write_replay(prop_id, part_name, case, fail_json, seed, tier, shrunk):
 def replay_file(prop_id, path):
     with open(path) as f:
         payload = json.load(f)
+    snapshot_library_state()
     prop = load_prop(prop_id)
     part = prop.part(payload['part'])
     reset_library_state()
@@ -354,6 +390,7 @@ def replay_file(prop_id, path):
 def run_check(prop_id, tier, seed):
     t0 = time.time()
     env.assert_repo_import()
+    snapshot_library_state()
     prop = load_prop(prop_id)
     known = Known(prop_id)
     open_classes = known.open_classes()
